@@ -2,10 +2,16 @@
 
 Stateful differential: a rule-based machine drives, for each of 2 same-shaped independent engine states, a cached
 engine (generated cache configuration) and a cache-free twin over identical worlds, in one process.  After every turn
-the (t1, t2) the turn really used and the utterance must be equal apart from cache diagnostics.
+the stage results the turn really used (T1, every T2 call incl. the RAG refinement, plan, T4, apply), the utterance and
+the engine state left behind must be equal apart from cache diagnostics.
+
+Dimensions generated per machine (init step) and per step — see RULE.  Everything that is recorded in a history is
+replayable without Hypothesis (`replay_history`); new step/init fields are optional (`.get`) so old replays still run,
+on the world they were recorded with (`wv`).
 """
 from __future__ import annotations
 
+import contextlib
 import copy
 
 from hypothesis import strategies as st
@@ -15,52 +21,111 @@ from harness.runner import Sub, Violation, run_machine, digest
 from harness import world, observe
 
 LEVEL = "exploration"
-RULE = ("Hypothesis rule-based machine over {turn(state, agent, text, cfg variant, now), upsert node/edge (new id or "
-        "same-count edit of weight/label/rel), add episode, toggle kill switch, switch state} on 2 same-shaped engine "
-        "states; cached engine vs cache-free twin compared after every turn. Non-trivial = history in which the cached "
-        "engine served >=1 result from a cache (stage cache hit counter or cached result object re-served) after >=1 "
-        "mutating rule or agent/state/config switch. Distinct = digest of the history.")
+RULE = ("Hypothesis rule-based machine over {turn(state, agent, text, cfg variant, now advance), repeat-last-turn-with-one-"
+        "dimension-changed (variant | agent | state | case/space spelling | now | nothing), graph edits through every "
+        "store API (upsert_nodes / upsert_edges with new objects or read-modify-write of the stored record, "
+        "store.apply_deltas; new id or same-count edit of weight/label/rel/tags/endpoints), add episode (new id or "
+        "re-add of an existing id; owner, age), GEL edge edit, toggle kill switch, planner reflection flag, flip between "
+        "two cache configurations} on 2 same-shaped engine states; cached engine vs cache-free twin compared after every "
+        "turn. Per machine: cache configuration(s) (stage LRU+TTL incl. 1 s TTLs, byte-bounded perf caches, turn-level "
+        "manager, any mix), 2-4 config variants plus their single-leaf neighbours (T1 caps/decay/multipliers, T2 ranking/tiers/"
+        "hybrid/quality/owner scope, scheduler slice budgets, perf gate with caps kept, parallel T1/T2, embedding-store reader, "
+        "reflection writer, GEL updates by the turn) on top of a base overlay, encoder, "
+        "state shape (dict | attribute object sharing the process-level cache slot), second state with its own or the "
+        "same graphs, agents with own or shared graph sets. Non-trivial = history in which the cached engine served >=1 "
+        "result from a cache (stage cache hit counter or cached result object re-served) after >=1 mutating rule or "
+        "agent/state/config/now switch. Distinct = digest of the history.")
 ASSUMPTIONS = ["cache diagnostics excluded from the comparison: cache_* / max_delta / t1.cache_* / t2.cache_* / "
                "cache_hit / cache_size metrics",
-               "TTL expiry is not exercised (wall-clock TTLs of >= 60 s; runs last milliseconds)"]
+               "stage TTLs follow the logical clock (ctx.now_ms); expiry only ever turns a hit into a fresh computation, "
+               "so it needs no oracle clause of its own",
+               "the engine state left behind by a turn (store, memory index, GEL, version) is the effect of the apply / "
+               "reflection / GEL stages and must not depend on caches either",
+               "T2 metrics other than cache_* / t2.cache_* belong to the stage result (a hit re-serves the whole result "
+               "object); T1 perf gauges that a hit reports as zero are treated as cache diagnostics and not compared",
+               "owner isolation is asserted directly on the tiered retrieval path only (the embedding-store reader ranks "
+               "the whole store whatever the owner scope, with caches on and off alike)"]
 
 TEXTS = ["apple", "pear", "apple pear", "kiwi fig", "Apple", "apple  pear", "APPLE PEAR"]  # incl. case / whitespace variants
+TWINS = {"apple": ["Apple", "apple "], "Apple": ["apple"], "pear": ["Pear", "pear"], "apple pear": ["apple  pear", "APPLE PEAR", "Apple pear"],
+         "apple  pear": ["apple pear", "APPLE PEAR"], "APPLE PEAR": ["apple pear", "apple  pear"], "kiwi fig": ["Kiwi  fig", "kiwi fig"]}
 AGENTS = ["A", "B"]
+ADVANCES = [2000, 3600 * 1000, 86400 * 1000, 4 * 86400 * 1000]
+D = 86400
 
 
-def base_world(i: int) -> dict:
-    """Two same-shaped worlds: same graph ids, node/edge/episode counts, different contents."""
+def base_world(i: int, wv: int = 1) -> dict:
+    """Two same-shaped worlds: same graph ids, node/edge/episode counts, different contents.
+    wv=1 is the world old replays were recorded on; wv=2 adds episodes whose age sits just inside a recency window
+    (3 d - 1 s, 3 d - 30 min, 30 d - 30 min), importance / cluster ids and a GEL graph over the episodes."""
     enc = world.BowEncoder()
     if i == 0:
         nodes = [("a", "apple"), ("b", "pear"), ("c", "kiwi"), ("f", "fig")]
         edges = [("e0", "a", "b", 0.9, "supports"), ("e1", "f", "c", 0.8, "supports"), ("e2", "a", "f", 0.5, "associates")]
         eps = [("e1", "A", "apple pear"), ("e2", "A", "apple apple kiwi"), ("e3", "B", "apple fig"), ("e4", "B", "pear kiwi"),
                ("e5", "world", "kiwi fig apple"), ("e6", "A", "pear")]
+        eps2 = [("e7", "B", "apple pear kiwi"), ("e8", "A", "apple fig fig"), ("e9", "world", "pear apple")]
+        gel = [("e1", "e6", 0.9), ("e2", "e4", 0.5), ("e3", "e5", -0.5), ("e1", "e7", 0.3)]
     else:
         nodes = [("a", "pear"), ("b", "apple"), ("c", "fig"), ("f", "kiwi")]
         edges = [("e0", "a", "b", 0.2, "contradicts"), ("e1", "c", "b", 0.8, "supports"), ("e2", "f", "a", 0.9, "supports")]
         eps = [("e1", "B", "pear fig"), ("e2", "B", "apple"), ("e3", "A", "pear pear"), ("e4", "world", "apple kiwi"),
                ("e5", "A", "fig kiwi pear"), ("e6", "B", "apple fig")]
+        eps2 = [("e7", "A", "apple pear"), ("e8", "B", "kiwi apple apple"), ("e9", "world", "fig pear")]
+        gel = [("e2", "e5", 0.9), ("e1", "e4", -0.5), ("e3", "e6", 0.5), ("e2", "e8", 0.3)]
     g1 = {"nodes": [{"id": n, "label": lb, "tags": []} for n, lb in nodes],
           "edges": [{"id": e, "src": s, "dst": d, "w": w, "rel": r} for e, s, d, w, r in edges]}
     g2 = {"nodes": [{"id": "x", "label": "fig" if i == 0 else "apple", "tags": []}, {"id": "y", "label": "plum", "tags": []}],
           "edges": [{"id": "e0", "src": "x", "dst": "y", "w": 0.7, "rel": "supports"}]}
     ages = [0, 86400, 5 * 86400, 20 * 86400, 40 * 86400, 3600]
-    return {"graphs": {"g1": g1, "g2": g2}, "agents": {"A": ["g1"], "B": ["g1", "g2"]},
-            "eps": [{"id": eid, "owner": ow, "text": tx, "ts": world.iso_minus(world.NOW_ISO, ages[j]), "vec_full": enc.vec(tx)}
-                    for j, (eid, ow, tx) in enumerate(eps)]}
+    out = {"graphs": {"g1": g1, "g2": g2}, "agents": {"A": ["g1"], "B": ["g1", "g2"]},
+           "eps": [{"id": eid, "owner": ow, "text": tx, "ts": world.iso_minus(world.NOW_ISO, ages[j]), "vec_full": enc.vec(tx)}
+                   for j, (eid, ow, tx) in enumerate(eps)]}
+    if wv >= 2:
+        ages2 = [3 * D - 1, 3 * D - 1800, 30 * D - 1800]
+        for j, (eid, ow, tx) in enumerate(eps2):
+            out["eps"].append({"id": eid, "owner": ow, "text": tx, "ts": world.iso_minus(world.NOW_ISO, ages2[j]), "vec_full": enc.vec(tx)})
+        for j, e in enumerate(out["eps"]):
+            aux = {}
+            if j % 3 == 0:
+                aux["importance"] = [1.0, 0.0, 0.9][(j // 3) % 3]
+            if j % 2 == 1:
+                aux["cluster_id"] = "c1" if j < 5 else "c2"
+            if aux:
+                e["aux"] = aux
+        g = {"nodes": {e["id"]: {"id": e["id"]} for e in out["eps"]}, "edges": {}, "meta": {}}
+        for a, b, w in gel:
+            g["edges"][_gel_key(a, b)] = _gel_rec(a, b, w)
+        out["gel"] = g
+    return out
+
+
+def _gel_key(a, b):
+    s, d = (a, b) if a <= b else (b, a)
+    return f"{s}→{d}"
+
+
+def _gel_rec(a, b, w):
+    s, d = (a, b) if a <= b else (b, a)
+    return {"id": f"{s}→{d}", "src": s, "dst": d, "weight": float(w), "rel": "coact", "attrs": {}}
 
 
 NOCACHE = {"t1": {"cache": {"enabled": False}}, "t2": {"cache": {"enabled": False}}, "t4": {"cache": {"enabled": False}}}
 
+_STAGE_CC = [{"enabled": True}, {"enabled": True, "max_entries": 2}, {"enabled": False}, {"enabled": True, "ttl_s": 1}]
+_TURN_CC = [{"enabled": True}, {"enabled": True, "max_entries": 2}, {"enabled": False}, {"enabled": True, "ttl_sec": 1}]
 _CACHE_CFGS = st.fixed_dictionaries({
-    "t1": st.sampled_from([{"enabled": True}, {"enabled": True, "max_entries": 2}, {"enabled": False}]),
-    "t2": st.sampled_from([{"enabled": True}, {"enabled": True, "max_entries": 2}, {"enabled": False}]),
-    "t4": st.sampled_from([{"enabled": True}, {"enabled": True, "max_entries": 2}, {"enabled": False}]),
+    "t1": st.sampled_from(_STAGE_CC[:3] + _STAGE_CC[:2] + _STAGE_CC[3:]),
+    "t2": st.sampled_from(_STAGE_CC[:3] + _STAGE_CC[:2] + _STAGE_CC[3:]),
+    "t4": st.sampled_from(_TURN_CC[:3] + _TURN_CC[:2] + _TURN_CC[3:]),
     "perf": st.sampled_from([None, None, {"t1": {"cache": {"max_entries": 8, "max_bytes": 100000}}},
                              {"t2": {"cache": {"max_entries": 8, "max_bytes": 100000}}},
                              {"t1": {"cache": {"max_entries": 2, "max_bytes": 400}}, "t2": {"cache": {"max_entries": 2, "max_bytes": 4000}}}]),
 })
+
+_HY = {"enabled": True, "lambda_graph": 1.0, "edge_threshold": 0.0}
+_SCH = {"enabled": True, "quantum_ms": 10 ** 8}
+_Q = {"enabled": True, "fusion": {"mode": "score_interp", "alpha_semantic": 0.1}}
 
 VARIANTS = [
     {},
@@ -107,19 +172,84 @@ VARIANTS = [
     {"t1": {"radius_cap": 2}},  # 39 ~ 11
     {"t1": {"queue_budget": 3}},  # 40 ~ 12
     {"t3": {"max_ops_per_turn": 1}},  # 41
+    # ---- hardening round: leaves of the T1 key / T2 request fingerprint that no variant touched
+    {"perf": {"t1": {"caps": {"visited": 8}}}, "_perf_enabled": True},  # 42
+    {"perf": {"t1": {"caps": {"visited": 8}}}, "_perf_enabled": False},  # 43 ~ 42
+    {"perf": {"t1": {"dedupe_window": 8}}, "_perf_enabled": True},  # 44
+    {"perf": {"t1": {"dedupe_window": 8}}, "_perf_enabled": False},  # 45 ~ 44
+    {"perf": {"parallel": {"enabled": True, "t1": True, "max_workers": 2}}, "_perf_enabled": True},  # 46
+    {"perf": {"parallel": {"enabled": True, "t2": True, "max_workers": 2}}, "_perf_enabled": True},  # 47
+    {"t2": {"quality": _Q}},  # 48
+    {"t2": {"quality": {"enabled": True, "fusion": {"mode": "score_interp", "alpha_semantic": 0.9}}}},  # 49 ~ 48
+    {"t2": {"quality": dict(_Q, mmr={"enabled": True, "lambda": 0.1, "k": 2})}},  # 50 ~ 48
+    {"t2": {"quality": dict(_Q, mmr={"enabled": True, "lambda": 0.9, "k": 2})}},  # 51 ~ 50
+    {"t2": {"quality": dict(_Q, normalizer={"enabled": True, "min_token_len": 5})}},  # 52 ~ 48 (outside quality_digest)
+    {"t2": {"quality": dict(_Q, lexical={"bm25_k1": 0.0, "bm25_b": 0.0, "stopwords": "none"})}},  # 53 ~ 48
+    {"t2": {"hybrid": dict(_HY, anchor_top_m=1, walk_hops=2)}},  # 54 ~ 31
+    {"t2": {"hybrid": dict(_HY, degree_norm="invdeg")}},  # 55 ~ 17
+    {"t2": {"hybrid": dict(_HY, k_max=2)}},  # 56 ~ 17
+    {"t2": {"hybrid": dict(_HY, use_graph=False)}},  # 57 ~ 17
+    {"t2": {"hybrid": dict(_HY, edge_threshold=0.6)}},  # 58 ~ 17
+    {"t2": {"hybrid": dict(_HY, walk_hops=2, damping=0.05)}},  # 59 ~ 31
+    {"t2": {"hybrid": _HY}, "graph": {"enabled": True, "update": {"alpha": 0.3}}},  # 60 ~ 17: the turn itself edits the GEL
+    {"t3": {"allow_reflection": True}, "_needs_dim32": True},  # 61: the turn itself adds an episode (reflection writer)
+    {"t4": {"cache_bust_mode": "none"}},  # 62
+    {"t1": {"decay": {"mode": "exp_floor", "rate": 0.3, "floor": 0.6}}},  # 63 ~ 25
+    {"t1": {"decay": {"mode": "exp_floor", "rate": 0.9, "floor": 0.2}}},  # 64 ~ 25
+    {"t1": {"edge_type_mult": {"supports": 0.1, "associates": 1.5, "contradicts": 0.8}}},  # 65 ~ 14
+    {"t1": {"edge_type_mult": {"supports": 1.0, "associates": 0.6, "contradicts": 0.0}}},  # 66 ~ 0
+    {"t3": {"policy": {"tau_low": 0.99, "tau_high": 0.995}}},  # 67: every turn asks for the RAG refinement (second T2 call)
+    {"t2": {"k_retrieval": 3, "tiers": ["exact_semantic"], "exact_recent_days": 3}},  # 68 ~ 8
+    {"t2": {"owner_scope": "agent", "tiers": ["exact_semantic"], "exact_recent_days": 3}},  # 69 ~ 8, 3
+    {"scheduler": dict(_SCH, budgets={"wall_ms": 10 ** 9, "t1_iters": 0})},  # 70 ~ 18 (falsy zero budget)
+    {"scheduler": dict(_SCH, budgets={"wall_ms": 10 ** 9, "t2_k": 0})},  # 71 ~ 22
+    {"scheduler": dict(_SCH, budgets={"wall_ms": 10 ** 9})},  # 72 ~ 18..23: scheduler on, default budgets
+    {"t1": {"edge_type_mult": {"supports": 0.0, "associates": 0.6, "contradicts": 0.8}}},  # 73 ~ 0, 14: a relation switched off
+    {"t1": {"edge_type_mult": {"supports": 1.0, "associates": 0.0, "contradicts": 0.8}}},  # 74 ~ 0
+    # embedding-store reader (perf-gated retrieval path; "<STORE>" = shards written into the machine's sandbox, vectors
+    # rotated between the episodes so that its results differ visibly from the in-memory index)
+    {"t2": {"embed_root": "<STORE>"}, "perf": {"t2": {"reader": {"partitions": {"enabled": True, "path": "<STORE>"}}}}, "_perf_enabled": True},  # 75
+    {"t2": {"embed_root": "<STORE>"}, "perf": {"t2": {"reader": {"partitions": {"enabled": True, "path": "<STORE>"}}}}, "_perf_enabled": False},  # 76 ~ 75
+    {"t2": {"embed_root": "<STORE>"}, "perf": {"t2": {"reader": {"partitions": {"enabled": False, "path": "<STORE>"}}}}, "_perf_enabled": True},  # 77 ~ 75
 ]
 NEIGHBOURS = {15: [16], 16: [15], 18: [19], 19: [18, 0], 20: [21, 0], 21: [20], 22: [23, 0], 23: [22],
               26: [10], 10: [26], 27: [28], 28: [27], 29: [8], 8: [29], 30: [5], 5: [30], 31: [17], 32: [17], 33: [17],
               17: [32], 34: [6], 6: [34], 35: [9], 9: [35], 38: [13], 13: [38], 39: [11], 11: [39], 40: [12], 12: [40],
-              24: [0], 25: [0], 36: [0], 37: [0], 41: [0], 1: [2], 2: [1], 3: [4], 4: [3]}
+              24: [0], 25: [0], 36: [0], 37: [0], 41: [0], 1: [2], 2: [1], 3: [4], 4: [3],
+              42: [43], 43: [42], 44: [45], 45: [44], 46: [0], 47: [0], 48: [49], 49: [48], 50: [51], 51: [50], 52: [48], 53: [48],
+              54: [31], 55: [17], 56: [17], 57: [17], 58: [17], 59: [31], 60: [17], 61: [0], 62: [0], 63: [25], 64: [25],
+              65: [14], 14: [0, 73], 66: [0], 67: [0], 68: [8], 69: [8], 70: [18], 71: [22], 72: [19], 73: [0, 14], 74: [0], 75: [76, 77], 76: [75], 77: [75]}
+
+# base overlays (index recorded in the init step: append only): every variant of a machine is merged ON TOP of one of
+# these, so single-leaf variants meet configurations in which `now`, the GEL, the owner or the metrics gate matter
+BASES = [
+    {},
+    {"t2": {"tiers": ["exact_semantic"], "exact_recent_days": 3}},  # no archive tier re-finds what the window dropped
+    {"t2": {"ranking": {"alpha_sim": 0.5, "beta_recency": 0.3, "gamma_importance": 0.2}}},
+    {"t2": {"hybrid": {"enabled": True, "lambda_graph": 1.0, "edge_threshold": 0.0}}},
+    {"t2": {"owner_scope": "agent"}},
+    {"perf": {"metrics": {"report_memory": True}}, "_perf_enabled": True},  # metrics gate open: hits touch the cached object's metrics
+    {"scheduler": {"enabled": True, "quantum_ms": 10 ** 8, "budgets": {"wall_ms": 10 ** 9}}},
+    {"t3": {"policy": {"tau_low": 0.99, "tau_high": 0.995}}},  # RAG refinement on every turn
+    {"t3": {"allow_reflection": True}, "_needs_dim32": True},  # the turn itself adds an episode (machines on the engine's encoder)
+    # retrieval through the embedding-store reader while the perf gate is open (variant 76 = same with the gate closed joins)
+    {"t2": {"embed_root": "<STORE>"}, "perf": {"t2": {"reader": {"partitions": {"enabled": True, "path": "<STORE>"}}}}, "_perf_enabled": True},
+]
+_BASE_IDX = st.sampled_from([0, 0, 0, 1, 1, 2, 3, 3, 4, 4, 5, 6, 7, 8, 8, 9, 9])
 
 DIAG_PREFIXES = ("cache_", "t1.cache_", "t2.cache_")
 
 
-def _merge_cfg(variant: dict, cache_cfg, cached: bool) -> dict:
-    v = {k: copy.deepcopy(x) for k, x in variant.items() if not k.startswith("_")}
+def _merge_cfg(variant: dict, cache_cfg, cached: bool, base: dict = None, dim32: bool = True) -> dict:
+    if variant.get("_needs_dim32") and not dim32:
+        variant = {}  # the reflection writer embeds with 32 dimensions: only for machines on the engine's own encoder
+    if base and base.get("_needs_dim32") and not dim32:
+        base = {}
     perf_enabled = variant.get("_perf_enabled")
-    out = copy.deepcopy(v)
+    if perf_enabled is None and base:
+        perf_enabled = base.get("_perf_enabled")
+    out = {k: copy.deepcopy(x) for k, x in (base or {}).items() if not k.startswith("_")}
+    out = world.deep_merge(out, {k: copy.deepcopy(x) for k, x in variant.items() if not k.startswith("_")})
     if cached:
         out = world.deep_merge(out, {"t1": {"cache": cache_cfg["t1"]}, "t2": {"cache": cache_cfg["t2"]}, "t4": {"cache": cache_cfg["t4"]}})
         if cache_cfg["perf"] is not None:
@@ -133,6 +263,65 @@ def _merge_cfg(variant: dict, cache_cfg, cached: bool) -> dict:
     return out
 
 
+def _subst(obj, old, new):
+    if isinstance(obj, dict):
+        return {k: _subst(v, old, new) for k, v in obj.items()}
+    if isinstance(obj, list):
+        return [_subst(v, old, new) for v in obj]
+    return obj.replace(old, new) if isinstance(obj, str) else obj
+
+
+class ObjState:
+    """Attribute-style engine state (not a dict): the orchestrator and the stages take the getattr/setattr paths and
+    the stage caches of ALL such states live in the one process-level slot."""
+
+    def __init__(self, d):
+        self.__dict__.update(d)
+
+    def get(self, k, default=None):
+        return self.__dict__.get(k, default)
+
+    def __getitem__(self, k):
+        return self.__dict__[k]
+
+    def __setitem__(self, k, v):
+        self.__dict__[k] = v
+
+    def __contains__(self, k):
+        return k in self.__dict__
+
+
+@contextlib.contextmanager
+def _capture_t2_calls(out: list):
+    """Every T2 stage call of a turn (main retrieval and RAG refinement), below observe.capture_used's wrapper."""
+    import clematis.engine.orchestrator as orch
+
+    orig = getattr(orch, "t2_semantic")
+
+    def w(ctx, state, text, t1):
+        r = orig(ctx, state, text, t1)
+        out.append({"q": text, "view": observe.t2_view(r), "oid": id(r), "obj": r})
+        return r
+
+    orch.t2_semantic = w
+    try:
+        yield
+    finally:
+        orch.t2_semantic = orig
+
+
+def _t2_metrics_view(t2):
+    """Every T2 metric that is not a cache diagnostic (sim/score statistics, hybrid and quality telemetry, caps ...)."""
+    m = getattr(t2, "metrics", None) or {}
+    return {str(k): repr(v) for k, v in sorted(m.items(), key=lambda kv: str(kv[0])) if not str(k).startswith(DIAG_PREFIXES)}
+
+
+def _plan_view(plan):
+    if plan is None:
+        return None
+    return {"ops": [repr(op) for op in (getattr(plan, "ops", None) or [])], "reflection": bool(getattr(plan, "reflection", False))}
+
+
 class CacheMachine(RuleBasedStateMachine):
     def __init__(self):
         super().__init__()
@@ -141,27 +330,45 @@ class CacheMachine(RuleBasedStateMachine):
         self.root = self._sb.__enter__()
         world.reset_engine_globals()
         self.eng = {}
-        self._worlds = {i: base_world(i) for i in (0, 1)}
-        self._build_engines("bow")
+        self.wv = 1
+        self.shape = "dict"
+        self.wmode = "distinct"
+        self.amode = "split"
+        self.encoder = "bow"
         self.kill = {0: False, 1: False}
+        self.reflect = {0: False, 1: False}
         self.turn_no = 0
         self.now_ms = world.NOW_MS
         self.cache_cfg = None
+        self.cache_cfgs = [None, None]
+        self.cache_sel = 0
+        self.base = 0
         self.variants = [0]
         self.seen_t2_objs = set()
+        self._keep = []
         self.mutated = False
         self.hits_after_mutation = 0
         self.last_key = None
+        self.last_turn = None
+        self.pending = {0: set(), 1: set()}
+        self.labels = set()
         self.new_ids = 0
         self.rec = getattr(type(self), "_rec", None)
 
-    def _build_engines(self, encoder):
+    def _build_engines(self):
         """encoder 'bow' (case-insensitive bag of words) or 'default' (the engine's own content-hash adapter, which is
         sensitive to case, spacing and word order - queries that merely look alike embed differently)."""
+        self._worlds = {i: base_world(i, self.wv) for i in (0, 1)}
+        if self.wmode == "same_graph":  # the second state has the first one's graphs (equal etags, label maps), its own memory
+            self._worlds[1]["graphs"] = copy.deepcopy(self._worlds[0]["graphs"])
         for i in (0, 1):
             w = copy.deepcopy(self._worlds[i])
+            if self.amode == "shared":  # both agents see the same graphs: they differ by agent id only
+                w["agents"] = {"A": ["g1", "g2"], "B": ["g1", "g2"]}
+            elif self.amode == "swapped":  # same graph set in a different order (later graphs win label collisions)
+                w["agents"] = {"A": ["g1", "g2"], "B": ["g2", "g1"]}
             enc = "bow"
-            if encoder == "default":
+            if self.encoder == "default":
                 from clematis.adapters.embeddings import DeterministicEmbeddingAdapter
                 ad = DeterministicEmbeddingAdapter(dim=32)
                 for e in w["eps"]:
@@ -169,32 +376,82 @@ class CacheMachine(RuleBasedStateMachine):
                 enc = None
             self.eng[i] = {"C": observe.Engine(copy.deepcopy(w), self.root, encoder=enc),
                            "F": observe.Engine(copy.deepcopy(w), self.root, encoder=enc)}
-        self.encoder = encoder
+            if self.shape == "object":
+                for side in ("C", "F"):
+                    self.eng[i][side].state = ObjState(self.eng[i][side].state)
+            self._write_store(i, w)
+
+    def _store_dir(self, i):
+        import os
+
+        return os.path.join(self.root, f"store{i}_{self.encoder}")
+
+    def _write_store(self, i, w):
+        import os
+        import numpy as np
+        from clematis.engine.util.embed_store import write_shard
+
+        d = self._store_dir(i)
+        if os.path.isdir(d) or not w["eps"]:
+            return
+        os.makedirs(d)
+        ids = [str(e["id"]) for e in w["eps"]]
+        vecs = [list(e["vec_full"]) for e in w["eps"]]
+        vecs = vecs[1:] + vecs[:1]
+        write_shard(d, ids, np.asarray(vecs, dtype=np.float32), dtype="fp32", precompute_norms=False)
 
     def teardown(self):
         try:
             if self.rec is not None and self.history:
                 nt = self.hits_after_mutation > 0
                 self.rec.case(nontrivial=nt, dig=digest(self.history) if nt else None,
-                              labels=[f"hits_after_mutation={'>0' if nt else '0'}", f"steps={min(len(self.history) // 10 * 10, 40)}+"],
+                              labels=[f"hits_after_mutation={'>0' if nt else '0'}", f"steps={min(len(self.history) // 10 * 10, 40)}+"]
+                              + sorted(self.labels),
                               sample=self.history[:12] if nt else None)
         finally:
             self._sb.__exit__(None, None, None)
 
-    @initialize(cc=_CACHE_CFGS, vs=st.lists(st.integers(0, len(VARIANTS) - 1), min_size=2, max_size=4, unique=True),
-                encoder=st.sampled_from(["bow", "bow", "default"]))
-    def init(self, cc, vs, encoder):
-        self.cache_cfg = cc
-        if encoder != "bow":
-            self._build_engines(encoder)
+    def _reflection_possible(self):
+        return self.encoder == "default" and (BASES[self.base].get("_needs_dim32") or any(VARIANTS[v].get("_needs_dim32") for v in self.variants))
+
+    def _configure(self, st_):
+        """Apply an init step (generated or replayed)."""
+        self.cache_cfgs = [st_["cache"], st_.get("cache2")]
+        self.cache_sel = 0
+        self.cache_cfg = self.cache_cfgs[0]
+        self.variants = st_.get("variants") or [0]
+        self.base = int(st_.get("base", 0) or 0)
+        wv, shape = int(st_.get("wv", 1)), st_.get("shape", "dict")
+        wmode, amode, encoder = st_.get("wmode", "distinct"), st_.get("amode", "split"), st_.get("encoder", "bow")
+        self.wv, self.shape, self.wmode, self.amode, self.encoder = wv, shape, wmode, amode, encoder
+        self._build_engines()
+        if self._reflection_possible():
+            self.reflect = {0: True, 1: False}
+            for side in ("C", "F"):
+                self.eng[0][side].state["_planner_reflection_flag"] = True
+        self.history.append(st_)
+        self.labels.update({f"enc={encoder}", f"shape={shape}", f"wmode={wmode}", f"amode={amode}", f"base={self.base}",
+                            f"cache2={'yes' if st_.get('cache2') else 'no'}"})
+
+    @initialize(cc=_CACHE_CFGS, cc2=st.one_of(st.none(), st.none(), _CACHE_CFGS),
+                vs=st.lists(st.integers(0, len(VARIANTS) - 1), min_size=2, max_size=4, unique=True),
+                encoder=st.sampled_from(["bow", "default"]), base=_BASE_IDX,
+                shape=st.sampled_from(["dict", "dict", "object"]), wmode=st.sampled_from(["distinct", "distinct", "same_graph"]),
+                amode=st.sampled_from(["split", "shared", "shared", "swapped"]))
+    def init(self, cc, cc2, vs, encoder, base, shape, wmode, amode):
         # a machine works with a few config variants only, so the same variant recurs (cache hits) and
         # single-leaf neighbours meet (perf gate open/closed with the caps kept)
         for v in list(vs):
             for nb in NEIGHBOURS.get(v, []):
                 if nb not in vs:
                     vs = vs + [nb]
-        self.variants = vs
-        self.history.append({"op": "init", "cache": cc, "variants": vs, "encoder": encoder})
+        if base == 9 and 76 not in vs:
+            vs = vs + [76]
+        step = {"op": "init", "cache": cc, "variants": vs, "encoder": encoder, "wv": 2, "base": base, "shape": shape,
+                "wmode": wmode, "amode": amode}
+        if cc2 is not None:
+            step["cache2"] = cc2
+        self._configure(step)
 
     # ---- rules
     @rule(i=st.sampled_from([0, 1]), agent=st.sampled_from(AGENTS), text=st.sampled_from(TEXTS),
@@ -203,18 +460,65 @@ class CacheMachine(RuleBasedStateMachine):
         v = self.variants[v % len(self.variants)]
         self._turn(i, agent, text, v, adv)
 
-    # the same rule registered three more times: turns should make up most of a history
+    # the same rule registered twice more: turns should make up most of a history
     @rule(i=st.sampled_from([0, 1]), agent=st.sampled_from(AGENTS), text=st.sampled_from(TEXTS), v=st.integers(0, 7))
     def turn_b(self, i, agent, text, v):
-        self._turn(i, agent, text, self.variants[v % len(self.variants)], 0)
-
-    @rule(i=st.sampled_from([0, 1]), agent=st.sampled_from(AGENTS), text=st.sampled_from(TEXTS), v=st.integers(0, 7))
-    def turn_c(self, i, agent, text, v):
         self._turn(i, agent, text, self.variants[v % len(self.variants)], 0)
 
     @rule(i=st.sampled_from([0, 1]), text=st.sampled_from(TEXTS), v=st.integers(0, 7))
     def turn_d(self, i, text, v):
         self._turn(i, "A", text, self.variants[v % len(self.variants)], 0)
+
+    # the previous turn once more with exactly ONE input changed (or none): whatever the keys forget shows at once
+    @precondition(lambda self: self.last_turn is not None)
+    @rule(change=st.sampled_from(["same", "same", "variant", "variant", "variant", "agent", "state", "text", "now", "now"]),
+          k=st.integers(0, 7))
+    def turn_again(self, change, k):
+        i, agent, text, v = self.last_turn
+        adv = 0
+        if change == "variant":
+            near = [x for x in NEIGHBOURS.get(v, []) if x in self.variants]
+            pool = near + near + [x for x in self.variants if x != v]
+            if pool:
+                v = pool[k % len(pool)]
+        elif change == "agent":
+            agent = "B" if agent == "A" else "A"
+        elif change == "state":
+            i = 1 - i
+        elif change == "text":
+            tw = TWINS.get(text) or TEXTS
+            text = tw[k % len(tw)]
+        elif change == "now":
+            adv = ADVANCES[k % len(ADVANCES)]
+        self._turn(i, agent, text, v, adv)
+
+    # one mutation aimed at the state of the previous turn, then that very turn again: the stale-hit scenario by construction
+    @precondition(lambda self: self.last_turn is not None)
+    @rule(what=st.sampled_from(["upsert", "upsert", "upsert", "episode", "episode", "episode", "gel", "gel", "kill", "flip", "reflect"]),
+          gid=st.sampled_from(["g1", "g1", "g2"]),
+          ukind=st.sampled_from(["edge_weight", "edge_rel", "node_label", "new_node", "new_edge", "retarget_edge", "edge_weight_inplace",
+                                 "edge_rel_inplace", "apply_edge_weight", "apply_new_edge", "apply_new_node", "node_label_inplace",
+                                 "node_tags", "node_tags_inplace", "edge_weight_last", "apply_edge_weight"]),
+          val=st.sampled_from([0.0, 1.0, -0.9, 0.3]), label=st.sampled_from(["apple", "pear", "kiwi", "zzz"]),
+          owner=st.sampled_from(["A", "B", "world"]), etext=st.sampled_from(["apple", "apple pear", "pear", "kiwi fig", "apple apple"]),
+          reuse=st.sampled_from([None, None, "e1", "e2", "e3", "e5", "last"]), age=st.sampled_from([7200, 0, 3 * D - 1, 40 * D]),
+          keep=st.sampled_from([None, "all", "all", "vec"]), imp=st.sampled_from([None, None, 0.0, 1.0]),
+          a=st.sampled_from(["e1", "e2", "e3"]), b=st.sampled_from(["e4", "e5", "e6", "e7"]), w=st.sampled_from([0.0, 0.9, -0.9, 0.3]))
+    def edit_and_repeat(self, what, gid, ukind, val, label, owner, etext, reuse, age, keep, imp, a, b, w):
+        i, agent, text, v = self.last_turn
+        if what == "upsert":
+            self.upsert(i, gid, ukind, val, label)
+        elif what == "episode":
+            self.add_episode(i, owner, etext, reuse, age, keep, imp)
+        elif what == "gel" and self.wv >= 2:
+            self.gel_edit(i, a, b, w)
+        elif what == "kill":
+            self.toggle_kill(i)
+        elif what == "flip" and self.cache_cfgs[1] is not None:
+            self.flip_cache()
+        elif what == "reflect" and self._reflection_possible():
+            self.toggle_reflect(i)
+        self._turn(i, agent, text, v, 0)
 
     def _turn(self, i, agent, text, v, adv):
         self.turn_no += 1
@@ -222,59 +526,125 @@ class CacheMachine(RuleBasedStateMachine):
         step = {"op": "turn", "state": i, "agent": agent, "text": text, "variant": v, "adv_ms": adv, "kill": self.kill[i]}
         self.history.append(step)
         variant = VARIANTS[v]
+        base = BASES[self.base]
         key = (i, agent, v, self.now_ms // 86400000)
         if self.last_key is not None and key != self.last_key:
             self.mutated = True
         self.last_key = key
+        if self.last_turn is not None:
+            li, la, lt, lv = self.last_turn
+            for name, ch in (("state", li != i), ("agent", la != agent), ("text", lt != text), ("variant", lv != v), ("now", adv != 0)):
+                if ch:
+                    self.pending[i].add("sw:" + name)
+        self.last_turn = (i, agent, text, v)
+        n_eps = len(self.eng[i]["F"].state["mem_index"]._eps)
         out = {}
         for side, cached in (("C", True), ("F", False)):
             eng = self.eng[i][side]
-            cfgd = _merge_cfg(variant, self.cache_cfg, cached)
+            cfgd = _merge_cfg(variant, self.cache_cfg, cached, base, dim32=(self.encoder == "default"))
             cfgd = world.deep_merge(cfgd, {"t4": {"enabled": not self.kill[i]}})
+            cfgd = _subst(cfgd, "<STORE>", self._store_dir(i))
             cfg = eng.cfg(cfgd)
-            r = eng.turn(agent, text, cfg, self.turn_no, self.now_ms)
+            calls = []
+            with _capture_t2_calls(calls):
+                r = eng.turn(agent, text, cfg, self.turn_no, self.now_ms)
             if r["exc"] is not None:
                 raise Violation(f"turn raised on the {'cached' if cached else 'cache-free'} engine: {r['exc']}", self.history, "turn-raises")
+            r["t2_all"] = calls
             out[side] = r
         c, f = out["C"], out["F"]
+        wrote = len(self.eng[i]["F"].state["mem_index"]._eps) > n_eps
+        if wrote:
+            self.labels.add("reflection_write")
+            self.mutated = True
         # cache hit detection on the cached side
         hit = False
         try:
             if int(c["t1_obj"].metrics.get("cache_hits", 0) or 0) > 0:
                 hit = True
+                self.labels.add("hit:t1")
         except Exception:
             pass
         if c.get("t2_obj") is not None:
             oid = id(c["t2_obj"])
             if oid in self.seen_t2_objs:
                 hit = True
+                self.labels.add("hit:turn" if c.get("turn_cache_hit") else "hit:t2stage")
             self.seen_t2_objs.add(oid)
-            self._keep = getattr(self, "_keep", [])
             self._keep.append(c["t2_obj"])  # keep alive so ids are not reused
+        rag_c = c["t2_all"][(0 if c.get("turn_cache_hit") else 1):]
+        rag_f = f["t2_all"][1:]
+        for call in rag_c:
+            if call["oid"] in self.seen_t2_objs:
+                hit = True
+                self.labels.add("hit:t2rag")
+            self.seen_t2_objs.add(call["oid"])
+            self._keep.append(call["obj"])
+        if rag_f:
+            self.labels.add("rag")
         if hit and self.mutated:
             self.hits_after_mutation += 1
+        if hit:
+            self.labels.update("hit_after:" + p for p in self.pending[i])
+        self.pending[i] = {"mem:reflection"} if wrote else set()
         if ("t1" in c) != ("t1" in f) or ("t2" in c) != ("t2" in f):
             raise Violation(f"stages executed differ with caches on: {sorted(k for k in ('t1', 't2') if k in c)} vs "
                             f"{sorted(k for k in ('t1', 't2') if k in f)}", self.history, "stages-differ")
         if "t2" not in c:  # the turn yielded at the T1 boundary (slice budget reached)
+            self.labels.add("yield:t1")
             if c["t1"] != f["t1"]:
                 raise Violation(f"T1 result differs with caches on: {c['t1']} vs fresh {f['t1']}", self.history, "t1-differs")
             if c["line"] != f["line"]:
                 raise Violation(f"utterance differs with caches on: {c['line']!r} vs {f['line']!r}", self.history, "utterance")
+            self._compare_state(i)
             return
         if c["t1"] != f["t1"]:
             raise Violation(f"T1 result differs with caches on: {c['t1']} vs fresh {f['t1']}", self.history, self._sig("t1", c, f))
         if c["t2"] != f["t2"]:
             raise Violation(f"T2 result differs with caches on: {c['t2']} vs fresh {f['t2']}", self.history, self._sig("t2", c, f))
+        mc, mf = _t2_metrics_view(c.get("t2_obj")), _t2_metrics_view(f.get("t2_obj"))
+        if mc != mf:
+            diff = sorted(k for k in set(mc) | set(mf) if mc.get(k) != mf.get(k))
+            raise Violation(f"T2 metrics (other than cache diagnostics) differ with caches on in {diff}: "
+                            f"{ {k: mc.get(k) for k in diff} } vs fresh { {k: mf.get(k) for k in diff} }", self.history, "t2-metrics-differ")
+        if [x["view"] for x in rag_c] != [x["view"] for x in rag_f]:
+            raise Violation(f"T2 result of the RAG refinement differs with caches on: {[x['view'] for x in rag_c]} vs fresh "
+                            f"{[x['view'] for x in rag_f]}", self.history, "t2-rag-differs")
         if c["line"] != f["line"]:
             raise Violation(f"utterance differs with caches on: {c['line']!r} vs {f['line']!r}", self.history, "utterance")
+        if not c.get("completed"):
+            self.labels.add("yield:late")
+        # the later stages consume (t1, t2): plan, meta-filter and apply results must agree as well
+        for k, what in (("plan", "plan"), ("approved", "T4 approved deltas"), ("reasons", "T4 reasons")):
+            cv, fv = (c.get(k), f.get(k)) if k != "plan" else (_plan_view(c.get("plan")), _plan_view(f.get("plan")))
+            if cv != fv:
+                raise Violation(f"{what} differ with caches on: {cv} vs fresh {fv}", self.history, f"{k}-differs")
+        ca, fa = c.get("apply") or {}, f.get("apply") or {}
+        if (ca.get("applied"), ca.get("version_etag")) != (fa.get("applied"), fa.get("version_etag")):
+            raise Violation(f"apply result differs with caches on: {ca} vs fresh {fa}", self.history, "apply-differs")
         # owner isolation asserted directly
         scope = str(c["t2"].get("owner_scope"))
         if scope == "agent":
-            owners = {e["id"]: e.get("owner") for e in self._eps(i)}
-            for rid, *_ in c["t2"]["retrieved"]:
-                if owners.get(rid) != agent:
-                    raise Violation(f"agent scope: episode {rid} of owner {owners.get(rid)!r} served to agent {agent!r}", self.history, "owner-leak")
+            self.labels.add("scope=agent")
+            owners = {}
+            for e in self._eps(i):
+                owners.setdefault(e["id"], set()).add(e.get("owner"))
+            for view in [c["t2"]] + [x["view"] for x in rag_c]:
+                if view.get("tier_sequence") == ["embed_store"]:
+                    continue  # the embedding-store reader ranks the whole store; owner scope is a rule of the tiered path
+                for rid, *_ in view["retrieved"]:
+                    if agent not in owners.get(rid, set()):
+                        raise Violation(f"agent scope: episode {rid} of owner {sorted(map(str, owners.get(rid, [])))} served to agent {agent!r}",
+                                        self.history, "owner-leak")
+        self._compare_state(i)
+
+    def _compare_state(self, i):
+        dc = observe.state_digest(self.eng[i]["C"].state)
+        df = observe.state_digest(self.eng[i]["F"].state)
+        if dc != df:
+            diff = sorted(k for k in set(dc) | set(df) if dc.get(k) != df.get(k))
+            raise Violation(f"engine state after the turn differs with caches on in {diff}: "
+                            f"{ {k: dc.get(k) for k in diff} } vs fresh { {k: df.get(k) for k in diff} }"[:1500], self.history, "state-differs")
 
     def _sig(self, stage, c, f):
         return f"{stage}-differs"
@@ -284,13 +654,15 @@ class CacheMachine(RuleBasedStateMachine):
 
     @rule(i=st.sampled_from([0, 1]), gid=st.sampled_from(["g1", "g2"]),
           kind=st.sampled_from(["edge_weight", "edge_rel", "node_label", "new_node", "new_edge", "retarget_edge",
-                                "edge_weight_inplace", "edge_rel_inplace"]),
+                                "edge_weight_inplace", "edge_rel_inplace", "apply_edge_weight", "apply_new_edge", "apply_new_node",
+                                "node_label_inplace", "node_tags", "node_tags_inplace", "edge_weight_last", "apply_edge_weight"]),
           val=st.sampled_from([0.0, 1.0, -0.9, 0.3]), label=st.sampled_from(["apple", "pear", "kiwi", "zzz"]))
     def upsert(self, i, gid, kind, val, label):
         from clematis.engine.types import Node, Edge
 
         self.history.append({"op": "upsert", "state": i, "gid": gid, "kind": kind, "val": val, "label": label})
         self.mutated = True
+        self.pending[i].add("edit:" + kind)
         self.new_ids += 1
         for side in ("C", "F"):
             store = self.eng[i][side].state["store"]
@@ -299,6 +671,9 @@ class CacheMachine(RuleBasedStateMachine):
             nids = list(g.nodes.keys())
             if kind == "edge_weight" and eids:
                 e = g.edges[eids[0]]
+                store.upsert_edges(gid, [Edge(id=e.id, src=e.src, dst=e.dst, weight=val, rel=e.rel)])
+            elif kind == "edge_weight_last" and eids:
+                e = g.edges[eids[-1]]
                 store.upsert_edges(gid, [Edge(id=e.id, src=e.src, dst=e.dst, weight=val, rel=e.rel)])
             elif kind == "edge_weight_inplace" and eids:
                 e = g.edges[eids[0]]  # read-modify-write: edit the stored record and hand the SAME object back
@@ -317,18 +692,49 @@ class CacheMachine(RuleBasedStateMachine):
             elif kind == "node_label" and nids:
                 n = g.nodes[nids[0]]
                 store.upsert_nodes(gid, [Node(id=n.id, label=label, attrs=dict(n.attrs))])
+            elif kind == "node_label_inplace" and nids:
+                n = g.nodes[nids[-1]]
+                n.label = label
+                store.upsert_nodes(gid, [n])
+            elif kind == "node_tags" and nids:  # tags are seed keywords of T1
+                n = g.nodes[nids[-1]]
+                store.upsert_nodes(gid, [Node(id=n.id, label=n.label, attrs={"tags": [label]})])
+            elif kind == "node_tags_inplace" and nids:
+                n = g.nodes[nids[0]]
+                tags = n.attrs.setdefault("tags", [])
+                if label in tags:
+                    tags.remove(label)
+                else:
+                    tags.append(label)
+                store.upsert_nodes(gid, [n])
             elif kind == "new_node":
                 store.upsert_nodes(gid, [Node(id=f"n{self.new_ids}", label=label, attrs={"tags": []})])
             elif kind == "new_edge" and len(nids) >= 2:
                 store.upsert_edges(gid, [Edge(id=f"x{self.new_ids}", src=nids[0], dst=nids[-1], weight=val, rel="supports")])
+            # the store's batch API (what apply_changes calls), on a graph the agents read
+            elif kind == "apply_edge_weight" and eids:
+                e = g.edges[eids[0]]
+                store.apply_deltas(gid, [{"op": "upsert_edge", "id": e.id, "src": e.src, "dst": e.dst, "weight": val, "rel": e.rel}])
+            elif kind == "apply_new_edge" and len(nids) >= 2:
+                store.apply_deltas(gid, [{"op": "upsert_edge", "src": nids[-1], "dst": nids[0], "weight": val, "rel": "supports"}])
+            elif kind == "apply_new_node":
+                store.apply_deltas(gid, [{"op": "upsert_node", "id": f"n{self.new_ids}", "label": label}])
 
     @rule(i=st.sampled_from([0, 1]), owner=st.sampled_from(["A", "B", "world"]),
-          text=st.sampled_from(["apple", "apple pear", "pear", "kiwi fig", "apple apple"]))
-    def add_episode(self, i, owner, text):
+          text=st.sampled_from(["apple", "apple pear", "pear", "kiwi fig", "apple apple"]),
+          reuse=st.sampled_from([None, None, None, None, "e1", "e2", "e3", "e5", "last"]),
+          age=st.sampled_from([7200, 7200, 0, 3 * D - 1, 40 * D]), keep=st.sampled_from([None, "all", "all", "vec"]),
+          imp=st.sampled_from([None, None, 0.0, 1.0]))
+    def add_episode(self, i, owner, text, reuse=None, age=7200, keep=None, imp=None):
+        """Memory addition. `reuse` re-adds an id that is already in the index (an update of that memory: the unchanged
+        tree appends a second row with the same id); `keep` then carries over the stored row's embedding ('vec') or
+        embedding and text ('all'), so only owner / timestamp / importance (/ text) of the memory change."""
         import numpy as np
 
-        self.history.append({"op": "add_episode", "state": i, "owner": owner, "text": text})
+        self.history.append({"op": "add_episode", "state": i, "owner": owner, "text": text, "reuse": reuse, "age": age,
+                             "keep": keep, "imp": imp})
         self.mutated = True
+        self.pending[i].add("mem:add" if reuse is None else f"mem:readd:{keep or 'new'}")
         self.new_ids += 1
         for side in ("C", "F"):
             idx = self.eng[i][side].state["mem_index"]
@@ -337,13 +743,65 @@ class CacheMachine(RuleBasedStateMachine):
                 vec = DeterministicEmbeddingAdapter(dim=32).encode([text])[0]
             else:
                 vec = np.asarray(world.BowEncoder().vec(text), dtype=np.float32)
-            idx.add({"id": f"n{self.new_ids}", "owner": owner, "text": text, "ts": world.iso_minus(world.NOW_ISO, 7200),
-                     "vec_full": vec})
+            eid, tx = f"n{self.new_ids}", text
+            if reuse == "last" and idx._eps:
+                eid = str(idx._eps[-1].get("id"))
+            elif reuse is not None and reuse != "last":
+                eid = reuse
+            if reuse is not None and keep is not None:
+                stored = [e for e in idx._eps if str(e.get("id")) == eid]
+                if stored and stored[-1].get("vec_full") is not None:
+                    vec = np.array(stored[-1]["vec_full"], dtype=np.float32)
+                    if keep == "all":
+                        tx = stored[-1].get("text", text)
+            ep = {"id": eid, "owner": owner, "text": tx, "ts": world.iso_minus(world.NOW_ISO, age), "vec_full": vec}
+            if imp is not None:
+                ep["aux"] = {"importance": imp}
+            idx.add(ep)
+
+    @precondition(lambda self: self.wv >= 2)
+    @rule(i=st.sampled_from([0, 1]), a=st.sampled_from(["e1", "e2", "e3"]), b=st.sampled_from(["e4", "e5", "e6", "e7"]),
+          w=st.sampled_from([0.0, 0.9, -0.9, 0.3]))
+    def gel_edit(self, i, a, b, w):
+        self.history.append({"op": "gel_edit", "state": i, "a": a, "b": b, "w": w})
+        self.mutated = True
+        self.pending[i].add("gel")
+        for side in ("C", "F"):
+            state = self.eng[i][side].state
+            g = state.get("graph")
+            if g is None:
+                g = {"nodes": {}, "edges": {}, "meta": {}}
+                state["graph"] = g
+            rec = g.setdefault("edges", {}).get(_gel_key(a, b))
+            if rec is None:
+                g["edges"][_gel_key(a, b)] = _gel_rec(a, b, w)
+            else:
+                rec["weight"] = float(w)  # what gel.observe_retrieval / tick do: update the record in place
 
     @rule(i=st.sampled_from([0, 1]))
     def toggle_kill(self, i):
         self.kill[i] = not self.kill[i]
         self.history.append({"op": "toggle_kill", "state": i, "now": self.kill[i]})
+
+    @precondition(lambda self: self._reflection_possible())
+    @rule(i=st.sampled_from([0, 1]))
+    def toggle_reflect(self, i):
+        """What the LLM planner does when its plan asks for a reflection pass."""
+        self.reflect[i] = not self.reflect[i]
+        self.history.append({"op": "toggle_reflect", "state": i, "now": self.reflect[i]})
+        self.pending[i].add("reflect_flag")
+        for side in ("C", "F"):
+            self.eng[i][side].state["_planner_reflection_flag"] = self.reflect[i]
+
+    @precondition(lambda self: self.cache_cfgs[1] is not None)
+    @rule()
+    def flip_cache(self):
+        self.cache_sel = 1 - self.cache_sel
+        self.cache_cfg = self.cache_cfgs[self.cache_sel]
+        self.history.append({"op": "flip_cache", "sel": self.cache_sel})
+        self.labels.add("flip_cache")
+        for i in (0, 1):
+            self.pending[i].add("flip_cache")
 
 
 def sub_machine(rec, seed, shard, nshards, n=30, steps=25, shrink=True):
@@ -362,19 +820,21 @@ def replay_history(history):
         for st_ in history:
             op = st_["op"]
             if op == "init":
-                m.cache_cfg = st_["cache"]
-                if st_.get("encoder", "bow") != "bow":
-                    m._build_engines(st_["encoder"])
-                m.variants = st_.get("variants") or [0]
-                m.history.append(st_)
+                m._configure(st_)
             elif op == "turn":
                 m._turn(st_["state"], st_["agent"], st_["text"], st_["variant"], st_["adv_ms"])
             elif op == "upsert":
                 m.upsert(st_["state"], st_["gid"], st_["kind"], st_["val"], st_["label"])
             elif op == "add_episode":
-                m.add_episode(st_["state"], st_["owner"], st_["text"])
+                m.add_episode(st_["state"], st_["owner"], st_["text"], st_.get("reuse"), st_.get("age", 7200), st_.get("keep"), st_.get("imp"))
+            elif op == "gel_edit":
+                m.gel_edit(st_["state"], st_["a"], st_["b"], st_["w"])
             elif op == "toggle_kill":
                 m.toggle_kill(st_["state"])
+            elif op == "toggle_reflect":
+                m.toggle_reflect(st_["state"])
+            elif op == "flip_cache":
+                m.flip_cache()
     finally:
         m.teardown()
 
